@@ -1,10 +1,14 @@
 import SlipVerif.Model.Lambda
+import SlipVerif.Model.LambdaImpl
 import SlipVerif.Driver.Util
 --! namespace: ll
 /- line protocol for C04 (no blanks inside a term):
      ll bind <lambda-list> <args>      -> ok <name-hex>=<term>*  | err badLL | err <BindErr>
      ll arity <lambda-list>            -> ok <min> <max|inf>     | err badLL
      ll doc <name-hex>,<name-hex>,…|-  -> ok <min> <max|inf> <nodupmax|inf> | err badLL
+     ll impl <lambda-list> <args>      -> ok <name-hex>=<term|unbound>* | err defLambda | err <ImplErr>
+                                          (the code-level machine Model/LambdaImpl.lean over Gen/LambdaCall.lean:
+                                           DefLambda on the raw list, then Lambda.Call; one entry per parameter)
      ll hist <op>*   op = d:<name-hex>:<lambda-list> | c:<name-hex>:<args>
                      -> ok <result>;<result>;…  one per call: undef | err badLL | err <BindErr> | ok/<name-hex>=<term>/…
    term: n | i:<dec> | y:<hex> (symbol) | k:<hex> (keyword) | s:<hex> (string) | (<term>,<term>,…) -/
@@ -95,9 +99,27 @@ def handleHist (args : List String) : String :=
     | none => "err badLL"
     | some ops => "ok " ++ ";".intercalate ((runHist [] ops).map showResult)
 
+def showImplErr : LambdaImpl.ImplErr → String
+  | .tooFew => "tooFew" | .tooMany => "tooMany" | .missingValue => "missingValue"
+  | .notKeyword => "notKeyword" | .fault => "fault" | .auxForm => "auxForm"
+
+def handleImpl (l a : String) : String :=
+  match parseObj l, parseObj a with
+  | some lo, some ao =>
+    match LambdaImpl.defLambda lo, ao.toList? with
+    | .error _, _ => "err defLambda"
+    | _, none => "bad-request args"
+    | .ok doc, some as =>
+      match LambdaImpl.call doc as with
+      | .ok vars => "ok" ++ String.join ((LambdaImpl.observe doc vars).map (fun (n, v) =>
+          " " ++ hexString n ++ "=" ++ (match v with | some o => showObj o | none => "unbound")))
+      | .error e => "err " ++ showImplErr e
+  | _, _ => "bad-request term"
+
 def handle (entry : String) (args : List String) : String :=
   match entry, args with
   | "hist", ops => handleHist ops
+  | "impl", [l, a] => handleImpl l a
   | "bind", [l, a] =>
     match parseObj l, parseObj a with
     | some lo, some ao =>
